@@ -138,7 +138,7 @@ def corr(ctx):
         models.append((cfg, f))
     lines, meta = [], []
     for cfg, f in models:
-        toks = real.sev_cfg_tokens(f)
+        toks = real.sev_cfg_tokens(f, cfg)
         tmin = float(f.tms_u[-1])
         for _ in range(per):
             r = ctx.rng.random()
@@ -160,7 +160,8 @@ def corr(ctx):
             f, rec = real.record_states(lambda: gen.build(cfg), max_states=ctx.n(150, 300))
         except Exception:
             continue
-        toks = real.sev_cfg_tokens(f)
+        f._cfg = cfg
+        toks = real.sev_cfg_tokens(f, cfg)
         for t, y in rec:
             parts = f.massbins.unpack_values(y)
             lines.append(f"sev {h(t)} {hl(parts[0])} {hl(parts[1])} {toks}")
@@ -173,7 +174,10 @@ def corr(ctx):
 
 
 # ------------------------------------------------------------------ predicates on the real code
-def check_state(f, t, y):
+def check_state(f, t, y, cfg=None):
+    cfg = cfg or f._cfg
+    kw = cfg["kw"]
+    want_frem = {"WD": 1.0, "NS": kw.get("NS_ret", real.DOC_DEFAULTS["NS_ret"]), "BH": kw.get("BH_ret_int", real.DOC_DEFAULTS["BH_ret_int"])}
     kind, d = real_sev(f, t, y)
     if kind != "ok":
         return {"clause": "remnant lookup raised from inside the derivative", "observed": kind}
@@ -202,7 +206,7 @@ def check_state(f, t, y):
     flux = -float(dNs[i])
     dN = {"WD": dNwd, "NS": dNns, "BH": dNbh}; dM = {"WD": dMwd, "NS": dMns, "BH": dMbh}
     if m_rem > 0:
-        frem = f._frem[cls]
+        frem = want_frem[cls]
         b = getattr(mb.bins, cls)
         idx = [k for k in range(len(b.lower)) if b.lower[k] <= m_rem < b.upper[k]]
         if len(idx) != 1:
@@ -262,6 +266,7 @@ def sweep(ctx):
             f = gen.build(cfg)
         except Exception:
             continue
+        f._cfg = cfg
         tmin = float(f.tms_u[-1])
         for _ in range(ctx.n(60, 200)):
             t = loguniform(ctx.rng, max(tmin, 1.0), 2e4)
@@ -286,7 +291,7 @@ def replay(ctx, fi):
     a = fi["args"]
     if fi["call"] == "state":
         f = gen.build(a["cfg"])
-        r = check_state(f, unjf(a["t"]), np.array([unjf(x) for x in a["y"]]))
+        r = check_state(f, unjf(a["t"]), np.array([unjf(x) for x in a["y"]]), a["cfg"])
         return None if r == "skip" else r
     if fi["call"] == "rows":
         r = check_rows(rows_worker(a["cfg"]))
